@@ -184,7 +184,7 @@ func checkC10(e *RunEnv) *CheckResult {
 	var rerun []Violation
 	var rerunDone bool
 	res.Rejudge = func(v *Violation) []Violation {
-		if v.Case != nil {
+		if v.Case != nil || v.Oracle == "no-fatal" {
 			if !rerunDone {
 				rerun, rerunDone = runH(), true
 			}
